@@ -614,12 +614,17 @@ class Server(utils.EventEmitter):
                 self.send_response(bearer, response)
             except Exception:
                 logger.exception(color("!!! Exception in handler:", "red"))
-                response = att.ATT_Error_Response(
-                    request_opcode_in_error=att_pdu.op_code,
-                    attribute_handle_in_error=0x0000,
-                    error_code=att.ATT_UNLIKELY_ERROR_ERROR,
-                )
-                self.send_response(bearer, response)
+                if not (
+                    att_pdu.is_command
+                    or att_pdu.op_code == att.Opcode.ATT_HANDLE_VALUE_CONFIRMATION
+                ):
+                    # (only a request is answered)
+                    response = att.ATT_Error_Response(
+                        request_opcode_in_error=att_pdu.op_code,
+                        attribute_handle_in_error=0x0000,
+                        error_code=att.ATT_UNLIKELY_ERROR_ERROR,
+                    )
+                    self.send_response(bearer, response)
                 raise
         else:
             # No specific handler registered
@@ -1234,7 +1239,9 @@ class Server(utils.EventEmitter):
         See Bluetooth spec Vol 3, Part F - 3.4.7.3 Handle Value Confirmation
         '''
         del confirmation  # Unused.
-        if (pending_confirmation := self.pending_confirmations[bearer]) is None:
+        if (
+            pending_confirmation := self.pending_confirmations[bearer]
+        ) is None or pending_confirmation.done():
             # Not expected!
             logger.warning(
                 '!!! unexpected confirmation, there is no pending indication'
